@@ -354,4 +354,118 @@ theorem rstrip0_append_zeros (b : Bytes) (n : Nat) (h : b.getLast? ≠ some 0) :
       rw [← List.head?_reverse, hb, hx0]; rfl
     rw [List.dropWhile_cons, if_neg (by simpa using hx), ← hb, List.reverse_reverse]
 
+/-! ### normal form of a format -/
+
+theorem zeros_append (a b : Nat) : zeros a ++ zeros b = zeros (a + b) := by
+  simp [zeros, List.replicate_append_replicate]
+
+theorem size_normalize (f : Fmt) : size (normalize f) = size f := by
+  induction f with
+  | nil => rfl
+  | cons x fs ih =>
+    cases x with
+    | pad n =>
+      simp only [normalize]
+      split
+      · rename_i m r hr
+        rw [size_cons, size_cons, ← ih, hr, size_cons]; simp [FieldFmt.size]; omega
+      · split
+        · rename_i h0; subst h0; rw [size_cons, ih]; simp [FieldFmt.size]
+        · rw [size_cons, size_cons, ih]
+    | _ => all_goals simp only [normalize, size_cons, ih]
+
+theorem pack_pad (n : Nat) (fs : Fmt) (vs : List Val) :
+    pack (.pad n :: fs) vs = match pack fs vs with
+      | .ok r => .ok (zeros n ++ r)
+      | .error e => .error e := by
+  simp only [pack]
+  cases pack fs vs <;> rfl
+
+theorem pack_normalize (f : Fmt) : ∀ vs, pack (normalize f) vs = pack f vs := by
+  induction f with
+  | nil => intro vs; rfl
+  | cons x fs ih =>
+    intro vs
+    cases x with
+    | pad n =>
+      simp only [normalize]
+      rw [pack_pad n fs vs, ← ih vs]
+      split
+      · rename_i m r hr
+        rw [hr, pack_pad, pack_pad]
+        cases pack r vs with
+        | ok b => simp [← zeros_append]
+        | error e => rfl
+      · split
+        · rename_i h0; subst h0
+          cases pack (normalize fs) vs with
+          | ok b => simp [zeros]
+          | error e => rfl
+        · rw [pack_pad]
+    | _ =>
+      all_goals
+        simp only [normalize]
+        cases vs with
+        | nil => simp [pack]
+        | cons v vs' => simp only [pack, ih vs']
+
+theorem unpackAux_pad (n : Nat) (fs : Fmt) (bs : Bytes) :
+    unpackAux (.pad n :: fs) bs = if bs.length < n then .error .size else unpackAux fs (bs.drop n) := by
+  simp only [unpackAux, FieldFmt.size, FieldFmt.isValue]
+  by_cases h : bs.length < n
+  · simp [h]
+  · simp only [h, if_false]
+    cases unpackAux fs (bs.drop n) <;> simp
+
+theorem unpackAux_normalize (f : Fmt) : ∀ bs, unpackAux (normalize f) bs = unpackAux f bs := by
+  induction f with
+  | nil => intro bs; rfl
+  | cons x fs ih =>
+    intro bs
+    cases x with
+    | pad n =>
+      simp only [normalize]
+      rw [unpackAux_pad n fs bs, ← ih]
+      split
+      · rename_i m r hr
+        rw [hr, unpackAux_pad, unpackAux_pad]
+        by_cases h1 : bs.length < n
+        · simp [h1]; omega
+        · simp only [h1, if_false, List.length_drop, List.drop_drop]
+          by_cases h2 : bs.length - n < m
+          · simp [h2]; omega
+          · simp only [h2, if_false]
+            rw [if_neg (by omega), Nat.add_comm n m]
+      · split
+        · rename_i h0; subst h0; simp
+        · rw [unpackAux_pad]
+    | _ =>
+      all_goals
+        simp only [normalize, unpackAux, ih]
+
+theorem unpack_normalize (f : Fmt) (bs : Bytes) : unpack (normalize f) bs = unpack f bs := by
+  simp only [unpack, size_normalize, unpackAux_normalize]
+
+/-- Formats with the same normal form (pads merged, empty pads dropped) are interchangeable: the
+reader may use one and the writer the other. -/
+theorem unpack_pack_of_normalize_eq {fr fw : Fmt} (hn : normalize fr = normalize fw)
+    {vs : List Val} {bs : Bytes} (h : pack fw vs = .ok bs) : unpack fr bs = .ok (canon fw vs) := by
+  rw [← unpack_normalize fr, hn, unpack_normalize]
+  exact unpack_pack h
+
+
+theorem unpackManyAux_congr {f g : Fmt} (hu : ∀ bs, unpack f bs = unpack g bs) (hs : size f = size g) :
+    ∀ n bs, unpackManyAux f n bs = unpackManyAux g n bs := by
+  intro n
+  induction n with
+  | zero => intro bs; rfl
+  | succ n ih => intro bs; simp only [unpackManyAux, hu, hs, ih]
+
+theorem unpackMany_of_normalize_eq {fr fw : Fmt} (hn : normalize fr = normalize fw) (bs : Bytes) :
+    unpackMany fr bs = unpackMany fw bs := by
+  have hs : size fr = size fw := by rw [← size_normalize fr, hn, size_normalize]
+  have hu : ∀ bs, unpack fr bs = unpack fw bs := fun bs => by
+    rw [← unpack_normalize fr, hn, unpack_normalize]
+  simp only [unpackMany, hs, unpackManyAux_congr hu hs]
+
 end StructCodec
